@@ -44,6 +44,17 @@ pub fn vcmp(a: &V, b: &V) -> Option<Ordering> {
     }
 }
 
+/// comparison as the comparison operators, `<=>`, min and max apply it at the top level: only
+/// number-number and sequence-sequence pairs are comparable (null is not, even with itself)
+pub fn ncmp(a: &V, b: &V) -> Option<Ordering> {
+    let seq = |v: &V| matches!(v, V::Str(_) | V::Bytes(_) | V::List(_) | V::Vector(_) | V::Dict(_) | V::Stream(_));
+    if (is_num(a) && is_num(b)) || (seq(a) && seq(b)) {
+        vcmp(a, b)
+    } else {
+        None
+    }
+}
+
 fn is_scalar_class(v: &V) -> bool {
     matches!(v, V::Null | V::Int(_) | V::Rat(_) | V::Float(_) | V::Cx(..) | V::Str(_) | V::Bytes(_))
 }
@@ -303,7 +314,7 @@ fn extremum(m: &mut Model, name: &str, args: Vec<V>) -> R<V> {
     for b in items {
         let take = match &ret {
             None => true,
-            Some(r) => match vcmp(&b, r) {
+            Some(r) => match ncmp(&b, r) {
                 Some(o) => o == want,
                 None => return throw("type error: can't compare"),
             },
@@ -378,7 +389,31 @@ fn to_usize_clamped(v: &V) -> R<usize> {
     }
 }
 
+/// Generated programs stay small; a value this large means a runaway (growth the step budget does
+/// not see), which the model declines to follow.
+fn size_guard(v: &V) -> R<()> {
+    let too_big = match v {
+        V::List(x) | V::Vector(x) => x.len() > 400,
+        V::Str(s) => s.len() > 20_000,
+        V::Bytes(b) => b.len() > 20_000,
+        V::Int(n) => n.bits() > 20_000,
+        V::Dict(d) => d.entries.len() > 400,
+        _ => false,
+    };
+    if too_big {
+        unknown("size guard: value too large for the model")
+    } else {
+        Ok(())
+    }
+}
+
 pub fn call_builtin(m: &mut Model, site: &ScopeRef, name: &str, args: Vec<V>) -> R<V> {
+    let r = call_builtin_inner(m, site, name, args)?;
+    size_guard(&r)?;
+    Ok(r)
+}
+
+fn call_builtin_inner(m: &mut Model, site: &ScopeRef, name: &str, args: Vec<V>) -> R<V> {
     match name {
         "+" | "*" | "//" | "%" | "%%" => {
             let (a, b) = need2(name, args)?;
@@ -406,7 +441,7 @@ pub fn call_builtin(m: &mut Model, site: &ScopeRef, name: &str, args: Vec<V>) ->
                     "==" => veq(&w[0], &w[1]),
                     "!=" => !veq(&w[0], &w[1]),
                     _ => {
-                        let o = match vcmp(&w[0], &w[1]) {
+                        let o = match ncmp(&w[0], &w[1]) {
                             Some(o) => o,
                             None => return throw("type error: can't compare"),
                         };
@@ -426,7 +461,7 @@ pub fn call_builtin(m: &mut Model, site: &ScopeRef, name: &str, args: Vec<V>) ->
         }
         "<=>" => {
             let (a, b) = need2(name, args)?;
-            match vcmp(&a, &b) {
+            match ncmp(&a, &b) {
                 Some(Ordering::Less) => Ok(vint(-1)),
                 Some(Ordering::Equal) => Ok(vint(0)),
                 Some(Ordering::Greater) => Ok(vint(1)),
